@@ -464,19 +464,16 @@ def run(ck):
     quick = ck.tier == "quick"
 
     def engine(progs, subsets, extra=""):
-        src = []
+        cases = []
         for i, p in enumerate(progs):
             for b in [0] + subsets(i):
-                src.append("//// p%d.%d cons=%d loop=2000 budget=3000000%s" % (i, b, b, extra))
-                src.append(p)
-        rc, out, err = ck.run_bin(bins["trace"], input="\n".join(src) + "\n")
+                cases.append(("p%d.%d" % (i, b), "cons=%d loop=2000 budget=3000000%s" % (b, extra), p))
+        answers = ck.run_cases(bins["trace"], cases)
         res = {}
-        for l in out.split("\n"):
-            if l.startswith("{"):
-                d = json.loads(l)
-                i, b = d["id"][1:].split(".")
-                res.setdefault(int(i), {})[int(b)] = d
-        return rc, res, err
+        for cid, d in answers.items():
+            i, b = cid[1:].split(".")
+            res.setdefault(int(i), {})[int(b)] = d
+        return 0, res, ""
 
     # ---- (i) toy programs: model == engine(default) == engine(conservative); placement inclusion
     ntoy = 400 if quick else 6000
@@ -571,6 +568,14 @@ def run(ck):
         base = rs.get(15)
         if base is None or 0 not in rs:
             ck.fail_input({"site": "harness", "input": p, "expected": "results", "actual": "rc=%s %s" % (rc, err[-200:])})
+            continue
+        aborted = [b for b, d in rs.items() if d["completion"].startswith("abort")]
+        if aborted:
+            if len(aborted) == len(rs):
+                skipped += 1          # the program exhausts the memory limit whatever the configuration: a resource blow-up, not a placement effect
+            else:
+                ck.fail_input({"site": "abort-in-some-configurations", "input": p, "expected": "the same outcome in every configuration",
+                               "actual": {str(b): d["completion"][:80] for b, d in rs.items()}})
             continue
         if any("budget" in d["completion"] or "panic" in d["completion"] for d in rs.values()):
             if any("panic" in d["completion"] for d in rs.values()):
